@@ -80,7 +80,7 @@ def make_program(rng, hostile):
     for _ in range(rng.randint(0, 3)):
         lines.append((n, [g.simple_stmt()]))
         n += 10
-    where = rng.choice(["str", "data", "rem", "rem2", "print", "none"]) if hostile else "none"
+    where = rng.choice(["str", "data", "rem", "rem2", "print", "none", "openarr", "openarr"]) if hostile else "none"
     if where == "str":
         lines.append((n, [("let", ("var", "H$"), ("str", hostile), False)]))
     elif where == "data":
@@ -90,6 +90,12 @@ def make_program(rng, hostile):
         # unbalanced quotation marks before and after the hostile text (a comment is not a string context)
         lines.append((n, [("rem", rng.choice([" ", ' 5 1/4" DISK - ', ' "" " ', ' "']) + hostile + rng.choice(["", ' "', ' "" "']),
                            rng.choice(["REM", "'"]))]))
+    elif where == "openarr":
+        # a string constant without its closing quote, assigned to an array element whose subscript needs a runtime call:
+        # the emitted line carries a RUN and a literal; both have to come through (balanced) for the scan to see the RUN
+        txt = hostile.replace('"', "'")
+        fn = rng.choice([("fn", "INT", [("var", "K")]), ("fn", "VAL", [("str", "1")]), ("fn", "INSTR", [("num", 1.0, ["1"]), ("str", "AB"), ("str", "B")])])
+        lines.append((n, [("let", ("arr", "H$", [fn]), ("ostr", txt), False)]))
     elif where == "rem2":
         # the comment is the SECOND statement of its line: it is emitted on a line of its own, starting in column 0
         lines.append((n, [("let", ("var", "H"), ("num", 1.0, ["1"]), False), ("rem", " " + hostile, rng.choice(["REM", "'"]))]))
@@ -144,7 +150,20 @@ def run_case(case):
                              "detail": dict(detail, parse_error=err, emitted=out[-400:])})
         return obs
     if procs is None:
-        # C07 owns well-formedness; here only the bundle structure is judged
+        # ill-formed with and without bundling (C07's business) - but the bundle can still be judged for completeness,
+        # lexically: RUN at the start of a statement (after the label or after a backslash), procedure headers by regex
+        g = lib_graph()
+        body = plain["out"]
+        roots = {m.lower() for m in re.findall(r"(?im)(?:^\d*[ \t]*|\\[ \t]*)RUN[ \t]+(\w+)\(", body)}
+        need = closure([r for r in roots if r in g], g)
+        got = {m.lower() for m in re.findall(r"(?im)^procedure[ \t]+(\S+)[ \t]*$", out)}
+        missing = sorted(need - got)
+        obs["counters"]["lexical_bundle_checks"] = 1
+        if missing:
+            obs["key"] = "lexical|%s|%s" % (",".join(sorted(need)), where)
+            obs["counters"]["bundles_checked"] = 1
+            obs["viols"].append({"sig": "C13/missing/" + missing[0], "detail": dict(detail, missing=missing, roots=sorted(roots), lexical=True)})
+            return obs
         obs["nontrivial"] = False
         obs["key"] = "unparseable"
         obs["counters"]["unparseable_output"] = 1
